@@ -45,9 +45,65 @@ class Gen:
             return r.choice(self.globals)[0]
         if k < 0.78:
             return "ga[(unsigned) (%s) %% 7]" % r.choice([g[0] for g in self.globals])
-        if k < 0.9:
-            return "gs." + r.choice(["a", "b", "c", "d", "in.x", "in.y"])
+        if k < 0.88:
+            return self.member_read(r.choice(["gs.", "gs.", "(&gs)->"]))
+        if k < 0.92:
+            return r.choice(["gu.w", "gu.v[1]", "gu.h[2]", "gu.c[5]", "(+gu.bf.lo)", "((unsigned long long) gu.bf.hi)", "gu.sh.p", "(+gu.sh.q)"])
         return "(*gp)"
+
+    BF_T = [("int", 32), ("unsigned", 32), ("long", 64), ("unsigned long", 64), ("short", 16), ("unsigned short", 16), ("signed char", 8), ("unsigned char", 8),
+            ("long long", 64), ("unsigned long long", 64), ("_Bool", 1), ("char", 8)]
+
+    def gen_struct(self):
+        """struct S: bit-fields of every type and width packed next to ordinary members (storage units of bit-fields overlap their neighbours)"""
+        r = self.r
+        self.members = []   # (name, declared type, width or None)
+        decl = []
+        for i in range(r.randint(4, 9)):
+            if r.random() < 0.6:
+                t, b = r.choice(self.BF_T)
+                w = r.randint(1, b)
+                decl.append("%s m%d : %d;" % (t, i, w))
+                self.members.append(("m%d" % i, t, w))
+                if r.random() < 0.08:
+                    decl.append("%s : %d;" % (t, r.choice([0, 0, r.randint(1, b)])))
+            else:
+                t = r.choice(ITYPES)[0]
+                decl.append("%s m%d;" % (t, i))
+                self.members.append(("m%d" % i, t, None))
+        self.shape.append(("S", tuple((t, w) for _, t, w in self.members)))
+        init = ", ".join(self.lit() for _ in self.members)
+        return "struct in { short x; unsigned long y; }; struct S { %s struct in in; } gs = {%s, {-7, 9}};" % (" ".join(decl), init)
+
+    def member_read(self, base):
+        """an rvalue of a member: a bit-field wider than int is converted to its declared type first (gcc computes in the bit-field's own width)"""
+        r = self.r
+        if r.random() < 0.15:
+            return base + r.choice(["in.x", "in.y"])
+        n, t, w = r.choice(self.members)
+        if w is not None and w >= 32:
+            return "((%s) %s%s)" % (t, base, n)
+        return "(+%s%s)" % (base, n)
+
+    def member_lv(self, base):
+        return base + self.r.choice(self.members)[0]
+
+    def member_update(self, base, e):
+        """a compound assignment or ++/-- of a member that cannot overflow a signed type: arithmetic only where the promoted operation is done in a wider or an
+        unsigned type, shifts only on unsigned members"""
+        r = self.r
+        n, t, w = r.choice(self.members)
+        bits = w if w is not None else dict((x[0], x[1]) for x in ITYPES)[t]
+        uns = t.startswith("unsigned") or t == "_Bool"
+        ops = ["^=", "|=", "&="]
+        if uns or bits < 31:
+            ops += ["+=", "-=", "++", "--"]
+        if uns and t != "_Bool":
+            ops += [">>="] + (["<<="] if bits <= 16 or bits >= 32 else [])
+        op = r.choice(ops)
+        if op in ("++", "--"):
+            return "%s%s%s;" % (base, n, op) if r.random() < 0.5 else "%s%s%s;" % (op, base, n)
+        return "%s%s %s (%s & 7);" % (base, n, op, e)
 
     def expr(self, depth, const=False, locs=()):
         r = self.r
@@ -59,16 +115,22 @@ class Gen:
         if k < 0.18:
             # arithmetic on operands narrowed to types whose promoted result cannot overflow
             t1, t2 = r.choice(ITYPES[:4] + ITYPES[10:]), r.choice(ITYPES[:4] + ITYPES[10:])
-            return "((%s) %s %s (%s) %s)" % (t1[0], a, r.choice(["+", "-", "*"]), t2[0], b)
+            op = r.choice(["+", "-", "*"])
+            if op == "*" and t1[0] == "unsigned short" and t2[0] == "unsigned short":
+                t2 = ITYPES[2]   # 65535 * 65535 overflows int
+            return "((%s) %s %s (%s) %s)" % (t1[0], a, op, t2[0], b)
         if k < 0.32:
             t = r.choice([ITYPES[5], ITYPES[7], ITYPES[9]])  # unsigned arithmetic wraps
-            return "((%s) %s %s %s)" % (t[0], a, r.choice(["+", "-", "*", "&", "|", "^"]), b) if r.random() < 0.5 else "(%s %s (%s) %s)" % (a, r.choice(["&", "|", "^"]), t[0], b)
+            if r.random() < 0.5:   # both operands converted: a wider signed operand would make the arithmetic signed
+                return "((%s) %s %s (%s) %s)" % (t[0], a, r.choice(["+", "-", "*", "&", "|", "^"]), r.choice([t[0], t[0], "unsigned char", "unsigned short", "_Bool"]), b)
+            return "(%s %s (%s) %s)" % (a, r.choice(["&", "|", "^"]), t[0], b)
         if k < 0.42:
             return "SADD (%s, %s)" % (a, b) if r.random() < 0.5 else "SMUL (%s, %s)" % (a, b)
         if k < 0.58:
             return "(%s %s %s)" % (a, r.choice(["<", ">", "<=", ">=", "==", "!="]), b)   # mixed signed/unsigned comparisons are defined
         if k < 0.64:
-            return "((%s) %s %s (%s & %d))" % (r.choice(["unsigned", "unsigned long", "unsigned char", "unsigned short", "unsigned long long"]), a, r.choice(["<<", ">>"]), b, r.choice([7, 15, 31]))
+            op = r.choice(["<<", ">>"])  # a narrow unsigned operand is promoted to int: it is only shifted right
+            return "((%s) %s %s (%s & %d))" % (r.choice(["unsigned", "unsigned long", "unsigned long long"] + (["unsigned char", "unsigned short"] if op == ">>" else [])), a, op, b, r.choice([7, 15, 31]))
         if k < 0.68:
             return "((long long) %s >> (%s & 31))" % (a, b)
         if k < 0.74:
@@ -100,7 +162,9 @@ class Gen:
             self.globals.append(("g%d" % i, t))
             L.append("%s g%d = %s;" % (t[0], i, "(%s) %s" % (t[0], self.lit())))
         L.append("long long ga[7] = {%s};" % ", ".join(self.lit() for _ in range(7)))
-        L.append("struct in { short x; unsigned long y; }; struct S { int a : 5; unsigned b : 11; long c : 33; unsigned char d; struct in in; } gs = {-3, 1000, -5, 200, {-7, 9}};")
+        L.append(self.gen_struct())
+        L.append("union U { unsigned long long w; unsigned v[2]; unsigned short h[4]; unsigned char c[8]; struct { unsigned lo : 20; unsigned long long hi : 44; } bf; "
+                 "struct { signed char p; int q : 24; } sh; } gu = {0x123456789abcdef0ull};")
         L.append("long long *gp = &ga[2]; double gd = 2.5; float gf = 1.25f;")  # same type as the array: c2mir uses type-based alias information
         # compile-time folding: the same constant expressions in folded and in run-time positions
         consts = [self.expr(3, const=True) for _ in range(r.randint(4, 8))]
@@ -121,26 +185,57 @@ class Gen:
             for s in range(r.randint(2, 6)):
                 k = r.random()
                 if k < 0.25:
-                    body.append("  l%d %s %s;" % (r.randint(0, 2), r.choice(["=", "+=", "-=", "^=", "|=", "&="]) if True else "=", self.expr(3, locs=locs)))
+                    li, op = r.randint(0, 2), r.choice(["=", "+=", "-=", "^=", "|=", "&="])
+                    if op in ("+=", "-="):   # signed addition must not overflow
+                        body.append("  l%d = SADD (l%d, %s(long long) (%s));" % (li, li, "-" if op == "-=" and False else "", self.expr(3, locs=locs)))
+                    else:
+                        body.append("  l%d %s %s;" % (li, op, self.expr(3, locs=locs)))
                 elif k < 0.40:
-                    body.append("  for (int i = 0; i < %d; i++) { l2 = (l2 ^ (%s)) + i; ga[i %% 7] += (long long) (unsigned char) l2; }" % (r.randint(1, 9), self.expr(2, locs=locs)))
+                    body.append("  for (int i = 0; i < %d; i++) { l2 = SADD (l2 ^ (%s), i); ga[i %% 7] = SADD (ga[i %% 7], (unsigned char) l2); }" % (r.randint(1, 9), self.expr(2, locs=locs)))
                 elif k < 0.52:
-                    body.append("  if (%s) { l0 = %s; } else { l1 = %s; gs.b = %s; }" % (self.expr(2, locs=locs), self.expr(2, locs=locs), self.expr(2, locs=locs), self.expr(2, locs=locs)))
+                    body.append("  if (%s) { l0 = %s; } else { l1 = %s; %s = %s; }" % (self.expr(2, locs=locs), self.expr(2, locs=locs), self.expr(2, locs=locs), self.member_lv("gs."), self.expr(2, locs=locs)))
                 elif k < 0.64:
                     ci = r.sample(range(len(consts)), min(3, len(consts)))
-                    cases = " ".join("case (unsigned char) (%s) + %d: l2 += %d; %s" % (consts[c], 300 * j, j + 1, "break;" if r.random() < 0.7 else "") for j, c in enumerate(ci))
-                    body.append("  switch ((%s) & 1023) { %s default: l2 -= 1; }" % (self.expr(2, locs=locs), cases))
+                    cases = " ".join("case (unsigned char) (%s) + %d: l2 = SADD (l2, %d); %s" % (consts[c], 300 * j, j + 1, "break;" if r.random() < 0.7 else "") for j, c in enumerate(ci))
+                    body.append("  switch ((%s) & 1023) { %s default: l2 = SADD (l2, -1); }" % (self.expr(2, locs=locs), cases))
                 elif k < 0.72:
-                    body.append("  { struct S t = gs; t.a = %s; t.c = %s; t.in.x++; gs.d ^= (unsigned char) (t.a + t.c); if (t.in.x & 1) gs = t; }" % (self.expr(2, locs=locs), self.expr(2, locs=locs)))
+                    kk = r.random()
+                    if kk < 0.3:
+                        body.append("  { struct S t = gs; %s = %s; %s = %s; t.in.x++; %s ^= (unsigned char) (%s + %s); if (t.in.x & 1) gs = t; }"
+                                    % (self.member_lv("t."), self.expr(2, locs=locs), self.member_lv("t."), self.expr(2, locs=locs), self.member_lv("gs."),
+                                       self.member_read("t."), self.member_read("t.")))
+                    elif kk < 0.65:
+                        # the same object through its name and through a pointer, members written and read back in sequence
+                        st = []
+                        for _ in range(r.randint(2, 5)):
+                            b1, b2 = r.choice(["gs.", "ps->"]), r.choice(["gs.", "ps->"])
+                            q = r.random()
+                            if q < 0.5:
+                                st.append("%s = %s;" % (self.member_lv(b1), self.expr(1, locs=locs)))
+                            elif q < 0.8:
+                                st.append(self.member_update(b1, self.expr(1, locs=locs)))
+                            else:
+                                st.append("l%d ^= %s;" % (r.randint(0, 2), self.member_read(b2)))
+                            li = r.randint(0, 2)
+                            st.append("l%d = SADD (l%d, %s);" % (li, li, self.member_read(b2)))
+                        body.append("  { struct S *ps = &gs; %s }" % " ".join(st))
+                    else:
+                        st = []
+                        for _ in range(r.randint(2, 4)):
+                            w = r.choice(["gu.w", "gu.v[0]", "gu.v[1]", "gu.h[1]", "gu.h[3]", "gu.c[2]", "gu.c[7]", "gu.bf.lo", "gu.bf.hi", "gu.sh.p", "gu.sh.q", "pu->w", "pu->bf.hi", "pu->h[0]"])
+                            rd = r.choice(["gu.w", "gu.v[0]", "gu.v[1]", "gu.h[1]", "gu.h[3]", "gu.c[2]", "gu.c[7]", "(+gu.bf.lo)", "((unsigned long long) gu.bf.hi)", "gu.sh.p", "(+gu.sh.q)", "pu->w", "pu->c[0]"])
+                            st.append("%s = %s; l%d ^= %s;" % (w, self.expr(1, locs=locs), r.randint(0, 2), rd))
+                        body.append("  { union U *pu = &gu; %s }" % " ".join(st))
                 elif k < 0.80:
                     body.append("  { int n = %d; do { l1 = (l1 >> 1) ^ (%s); } while (--n > 0); }" % (r.randint(1, 5), self.expr(2, locs=locs)))
                 elif k < 0.88 and fi > 0:
                     cf = r.randint(0, fi - 1)
                     body.append("  l0 ^= f%d (%s);" % (cf, ", ".join(self.expr(2, locs=locs) for _ in range(self.sig[cf]))))
                 elif k < 0.94:
-                    body.append("  gd = gd * 0.5 + (double) (int) (signed char) (%s); gf = (float) ((long) gd %% 64) + 0.25f; l2 += gd > gf;" % self.expr(2, locs=locs))
+                    body.append("  gd = gd * 0.5 + (double) (int) (signed char) (%s); gf = (float) ((long) gd %% 64) + 0.25f; l2 = SADD (l2, gd > gf);" % self.expr(2, locs=locs))
                 else:
-                    body.append("  l%d%s; g%d%s;" % (r.randint(0, 2), r.choice(["++", "--"]), r.randint(0, ng - 1), r.choice(["++", "--"])) if True else "")
+                    gi = r.choice([i for i in range(ng) if self.globals[i][1][1] < 32 or not self.globals[i][1][2]] or [None])   # ++/-- only where it cannot overflow a signed type
+                    body.append("  l2 = SADD (l2, %s1);%s" % (r.choice(["", "-"]), " %sg%d%s;" % ((r.choice(["++", "--"]), gi, "") if r.random() < 0.5 else ("", gi, r.choice(["++", "--"]))) if gi is not None else ""))
             body.append("  return (%s) (%s);" % (rt[0], self.expr(3, locs=locs)))
             if not hasattr(self, "sig"):
                 self.sig = []
@@ -159,7 +254,9 @@ class Gen:
                 M.append("  out (\"f%d_%d\", (long long) f%d (%s));" % (fi, rep, fi, ", ".join(self.expr(2) for _ in range(self.sig[fi]))))
         for i in range(ng):
             M.append("  out (\"g%d\", (long long) g%d);" % (i, i))
-        M.append("  for (int i = 0; i < 7; i++) out (\"ga\", ga[i]); out (\"gs\", gs.a + gs.b + gs.c + gs.d + gs.in.x + (long long) gs.in.y); outd (\"gd\", gd); outd (\"gf\", gf);")
+        for n, t, w in self.members:
+            M.append("  out (\"gs.%s\", (long long) gs.%s);" % (n, n))
+        M.append("  for (int i = 0; i < 7; i++) out (\"ga\", ga[i]); out (\"gs\", gs.in.x + (long long) gs.in.y); outu (\"gu\", gu.w); outd (\"gd\", gd); outd (\"gf\", gf);")
         M.append("  return (int) (chk % 251); }")
         return "\n".join(L + M) + "\n", hash(tuple(self.shape)) & 0xffffffffffff
 
@@ -169,8 +266,10 @@ PROBES = {
     "bool-conversion-truncates": "(long long) (_Bool) 256 + 2 * (long long) (_Bool) 0.5",
     "char-constant-has-type-char": "(long long) sizeof ('a')",
     "wide-bit-field-static-initializer": "(long long) pb.c",
+    "bool-bit-field-assignment": "(pb2.b = 256, (long long) pb2.b) + 2 * (long long) pb3.b",
+    "static-init-of-bit-fields-sharing-bytes": "(long long) pb4.b * 1000 + pb4.c",
 }
-PROBE_SRC = ("#include <stdio.h>\nstruct PB { int a : 5; unsigned b : 11; long c : 33; } pb = {-3, 1000, -5};\nint main (void) {\n"
+PROBE_SRC = ("#include <stdio.h>\nstruct PB { int a : 5; unsigned b : 11; long c : 33; } pb = {-3, 1000, -5};\nstruct PB2 { _Bool b : 1; } pb2;\nstruct PB3 { char a : 4; _Bool b : 1; } pb3 = {1, -32768};\nstruct PB4 { long b : 40; int c : 10; } pb4 = {7, 9};\nint main (void) {\n"
              + "".join("  printf (\"%s %%lld\\n\", %s);\n" % (k, v) for k, v in PROBES.items()) + "  return 0; }\n")
 
 ENGINES = [("-ei",), ("-eg", "-O0"), ("-eg", "-O2"), ("-eg", "-O3"), ("-el",), ("-eb",)]
@@ -209,7 +308,7 @@ def one_case(args):
         for eng in ENGINES:
             en = "".join(eng).strip("-")
             ecls = "interp" if en == "ei" else "lazy" if en in ("el", "eb") else "gen"
-            rc, got, err = run_cmd([c2m, p] + list(eng), env=env)
+            rc, got, err = run_cmd([c2m] + list(eng[1:]) + [p, eng[0]], env=env)   # options after -e* are arguments of the executed program
             if rc < 0 or (rc != rrc and got == ""):
                 summ = common.san_summary(err)
                 first = re.sub(r"\S*p\.c:\d+:\d+:", "", (err.strip().splitlines() or ["?"])[0])
